@@ -1,5 +1,5 @@
 (* C18 -- strip_comments.  Property theorems only; proofs live in PP/StripFacts.v. *)
-From SV Require Import Eval EvalFacts StripFacts.
+From SV Require Import Eval EvalFacts StripFacts StripOut.
 
 (* For every input, define table, file system, flag and depth: preprocessing with and without
    strip_comments ends in the same error, or both succeed with the same define table -- provided
@@ -45,3 +45,38 @@ Theorem C18_comment_never_copied : forall c rec s p ig rd idp t x x',
   kind t = K_Comment -> step3 c rec s p ig true rd idp (Enter t) x = ROk x' ->
   s_out x' = s_out x \/ s_out x' = [32] :: s_out x \/ s_out x' = [10] :: s_out x.
 Proof. exact comment_stripped. Qed.
+
+(* The OUTPUT of a whole run: with strip_comments it is the output without it in which the texts of
+   some Comment nodes (of the trees the parser returned during the run: [cmt c]) are replaced by nothing,
+   one blank or one newline -- everything else, in the same order, byte for byte; through includes
+   and macro expansion, for every input, table, file system, flags and depths.  (And the tables are
+   equal, as above.)  [brel P a b]: b is a with some P-chunks replaced by fillers. *)
+Theorem C18_output_differs_only_at_comments : forall fuel c s p pre ignore rd idp,
+  literal_includes c ->
+  match pp_str fuel c s p pre ignore false rd idp, pp_str fuel c s p pre ignore true rd idp with
+  | ROk (t1, _, d1), ROk (t2, _, d2) => d1 = d2 /\ brel (cmt c) t1 t2
+  | ROk _, _ | _, ROk _ => False
+  | _, _ => True
+  end.
+Proof.
+  intros fuel c s p pre ignore rd idp HL. pose proof (pp_str_out fuel c s p pre ignore rd idp HL) as H.
+  destruct (pp_str fuel c s p pre ignore false rd idp) as [[[t1 o1] d1]| | | |],
+           (pp_str fuel c s p pre ignore true rd idp) as [[[t2 o2] d2]| | | |]; cbn in H; try contradiction; try exact I.
+  exact H.
+Qed.
+
+(* every arm of the loop only appends to the output: two runs of a flag-blind step from states with the
+   same control append the same chunks *)
+Theorem C18_steps_only_append : forall f x y x' y',
+  wo f -> same_ctl x y -> f x = ROk x' -> f y = ROk y' ->
+  exists cs, s_out x' = cs ++ s_out x /\ s_out y' = cs ++ s_out y.
+Proof. exact wo_two. Qed.
+
+(* the relation is not trivial: it forces equal text outside the replaced chunks *)
+Example C18_brel_example : forall P : bytes -> Prop, P [47;42;99;42;47] ->
+  brel P [97;47;42;99;42;47;98] [97;32;98].
+Proof.
+  intros P HP. change (brel P (([] ++ [97]) ++ [47;42;99;42;47] ++ [98]) (([] ++ [97]) ++ [32] ++ [98])).
+  rewrite !app_assoc. apply br_same. apply br_cmt; [|exact HP|right; left; reflexivity].
+  apply br_same. constructor.
+Qed.
